@@ -222,7 +222,7 @@ def documents(ctx):
         yield "hand", d
         # one malformation
         d = copy.deepcopy(doc)
-        kind = rng.randrange(9)
+        kind = rng.randrange(11)
         g.count("json_malformed", kind)
         feats = []
 
@@ -255,4 +255,17 @@ def documents(ctx):
             c["operands"] = c["operands"][:-1] if c["type"] != "FEATURE" else []
         elif kind == 8 and rels:
             rng.choice(rels)["children"] = []
+        elif kind in (9, 10) and d["constraints"]:
+            # a term that is no name (null, a list, a map), operands that are no list
+            def terms(a):
+                if a["type"] == "FEATURE":
+                    yield a
+                else:
+                    for o in a["operands"]:
+                        yield from terms(o)
+            t = rng.choice(list(terms(rng.choice(d["constraints"])["ast"])))
+            if kind == 9:
+                t["operands"] = [rng.choice([None, ["Bcd"], {"k": 1}])]
+            else:
+                t["operands"] = "Bcd"
         yield "malformed", d
